@@ -41,13 +41,25 @@ def via_cli(text, tmp):
     sys.argv, sys.stdout = ["pegen", "-q", gp, "-o", op], io.StringIO()
     if os.path.exists(op):
         os.unlink(op)
+    from pegen.validator import validate_grammar, ValidationError
+    try:
+        validate_grammar(read(text))
+        valid = True
+    except ValidationError:
+        valid = False
+    se = sys.stderr
+    sys.stderr = io.StringIO()
     try:
         M.main()
-    except BaseException:      # validate_grammar runs after the parser has been written; the file is what counts
-        if not os.path.exists(op):
-            raise
+    except SystemExit:
+        # the command line refuses a grammar its validator rejects -- before writing anything
+        if not valid and not os.path.exists(op):
+            return "REFUSED-BY-VALIDATOR"
+        raise
     finally:
-        sys.argv, sys.stdout = argv, so
+        sys.argv, sys.stdout, sys.stderr = argv, so, se
+    if not valid:
+        return "WROTE-A-PARSER-FOR-A-GRAMMAR-ITS-VALIDATOR-REJECTS\n"
     return open(op).read().replace(gp, "<gen>")
 
 
